@@ -84,6 +84,43 @@ def run(res, tier, seed, driver_ok):
     lines, expect = [], []
     perfun = {}
     ik_both = ik_same = 0
+    # targeted starts: the initial error twist is a multiple of one basis twist, just above / below the tolerance
+    # (the start is the solution and the goal is displaced by exp(delta * e_k)), for both solvers
+    ik_targeted = 0
+    for rd in range(rounds):
+        n_t, S_t, M_t = mrargs.chain(rnd, rnd.randint(2, 6))
+        th_t = np.array([rnd.uniform(-1.5, 1.5) for _ in range(n_t)])
+        B_t = np.ascontiguousarray(np.array([ref.Adjoint(ref.TransInv(M_t)) @ S_t[:, i] for i in range(n_t)]).T)
+        T0 = ref.FKinSpace(M_t, S_t, th_t)
+        eomg, ev = 0.01, 0.001
+        for k in range(6):
+            for fac in (3.0, 0.5):
+                e = np.zeros(6); e[k] = fac * (eomg if k < 3 else ev)
+                E = ref.MatrixExp6(ref.VecTose3(e))
+                for name in ('IKinSpace', 'IKinBody'):
+                    T = E @ T0 if name == 'IKinSpace' else T0 @ E
+                    a = (S_t, M_t, T, th_t.copy(), eomg, ev) if name == 'IKinSpace' else (B_t, M_t, T, th_t.copy(), eomg, ev)
+                    rp, ep = call(getattr(port, name), a)
+                    res.evaluations += 1
+                    ik_targeted += 1
+                    if ep is not None:
+                        res.violations.append({'key': 'raises:%s:%s' % (name, type(ep).__name__), 'what': 'port IK raises on a start next to the solution', 'input': {'function': name, 'component': k}, 'observed': repr(ep)})
+                        continue
+                    thp, okp = rp
+                    if okp:
+                        if name == 'IKinBody':
+                            Vb = ref.se3ToVec(ref.MatrixLog6(ref.TransInv(ref.FKinBody(M_t, B_t, thp)) @ T))
+                        else:
+                            Tsb = ref.FKinSpace(M_t, S_t, thp)
+                            Vb = ref.Adjoint(Tsb) @ ref.se3ToVec(ref.MatrixLog6(ref.TransInv(Tsb) @ T))
+                        if np.linalg.norm(Vb[:3]) > eomg * (1 + 1e-9) or np.linalg.norm(Vb[3:]) > ev * (1 + 1e-9):
+                            res.violations.append({'key': 'ik-false-success:%s' % name, 'what': 'port IK reports success but the tolerances are not met (start displaced along one twist component)',
+                                                   'input': {'function': name, 'component': k, 'factor': fac, 'S': S_t.tolist(), 'M': M_t.tolist(), 'T': T.tolist(), 'theta0': th_t.tolist()},
+                                                   'observed': [float(np.linalg.norm(Vb[:3])), float(np.linalg.norm(Vb[3:]))]})
+                    if fac < 1 and (not okp or np.max(np.abs(np.asarray(thp) - th_t)) > 0):
+                        res.violations.append({'key': 'ik-start-within-tolerance:%s' % name, 'what': 'a start that already meets the tolerances is not returned as it is with success',
+                                               'input': {'function': name, 'component': k}, 'observed': [bool(okp), np.asarray(thp).tolist()]})
+    res.stats['ik_targeted_starts'] = ik_targeted
     for rd in range(rounds):
         for name, args, kind in mrargs.cases(rnd):
             fp, fr = getattr(port, name, None), getattr(ref, name, None)
@@ -120,8 +157,14 @@ def run(res, tier, seed, driver_ok):
                                                'observed': [float(np.linalg.norm(Vb[:3])), float(np.linalg.norm(Vb[3:]))]})
                 if er is None and okp and rr[1]:
                     ik_both += 1
-                    if np.max(np.abs(np.asarray(thp) - np.asarray(rr[0]))) <= 1e-7:
+                    dth = float(np.max(np.abs(np.asarray(thp) - np.asarray(rr[0]))))
+                    if dth <= 1e-7:
                         ik_same += 1
+                    elif dth <= 1e-4 * (1.0 + float(np.max(np.abs(np.asarray(rr[0]))))):
+                        # the same solution branch: a long Newton excursion amplified rounding differences between the two libraries
+                        # (both results meet the tolerances, which allow far more than this); counted, not a different solution
+                        ik_same += 1
+                        res.stats['ik_same_branch_rounding_amplified'] = res.stats.get('ik_same_branch_rounding_amplified', 0) + 1
                     else:
                         res.violations.append({'key': 'ik-different-solution:%s' % name, 'what': 'both libraries converge from the same start but to different solutions',
                                                'input': {'function': name, 'theta0': th0.tolist()}, 'observed': [np.asarray(thp).tolist(), np.asarray(rr[0]).tolist()]})
